@@ -4,6 +4,7 @@ import (
 	"fmt"
 	"go/types"
 	"hash/fnv"
+	"sort"
 	"strings"
 
 	"golang.org/x/tools/go/ssa"
@@ -323,7 +324,7 @@ func structFam(t types.Type, field string) string {
 }
 
 // wf is the type invariant of a value (slice header sanity, string lengths).
-func wf(t types.Type, v Val) T {
+func (e *Eng) wf(t types.Type, v Val) T {
 	u := under(t)
 	switch x := u.(type) {
 	case *types.Basic:
@@ -341,7 +342,15 @@ func wf(t types.Type, v Val) T {
 			tImp(tEq(s.B, null), tEq(s.C, i64(0))))
 	case *types.Interface:
 		iv := v.(*IfaceV)
-		return tImp(tEq(iv.Ty, bvLit(32, 0)), tEq(iv.V, null))
+		cs := []T{tImp(tEq(iv.Ty, bvLit(32, 0)), tEq(iv.V, null))}
+		// the dynamic type of a non-nil value of interface type J implements every interface I with J's methods
+		for _, name := range e.sortedIfaces() {
+			if it := e.ifaceSeen[name]; x.NumMethods() > 0 && types.Implements(x, it) {
+				f := e.q.DeclareFun("impl|"+name, []string{sTag}, sBool)
+				cs = append(cs, tImp(tNot(tEq(iv.Ty, bvLit(32, 0))), app(f, iv.Ty)))
+			}
+		}
+		return tAnd(cs...)
 	case *types.Struct:
 		sv, ok := v.(*StructV)
 		if !ok {
@@ -349,14 +358,14 @@ func wf(t types.Type, v Val) T {
 		}
 		var cs []T
 		for i := 0; i < x.NumFields(); i++ {
-			cs = append(cs, wf(x.Field(i).Type(), sv.Fields[i]))
+			cs = append(cs, e.wf(x.Field(i).Type(), sv.Fields[i]))
 		}
 		return tAnd(cs...)
 	case *types.Tuple:
 		tv := v.(*TupleV)
 		var cs []T
 		for i := 0; i < x.Len(); i++ {
-			cs = append(cs, wf(x.At(i).Type(), tv.Elems[i]))
+			cs = append(cs, e.wf(x.At(i).Type(), tv.Elems[i]))
 		}
 		return tAnd(cs...)
 	}
@@ -454,3 +463,47 @@ func iteVal(t types.Type, c T, a, b Val) Val {
 }
 
 func isNullPtr(p *PtrV) bool { return p.Ref == null }
+
+func (e *Eng) sortedIfaces() []string {
+	var ns []string
+	for n := range e.ifaceSeen {
+		ns = append(ns, n)
+	}
+	sort.Strings(ns)
+	return ns
+}
+
+// implFun returns the "dynamic type implements I" predicate and records I; facts for all concrete
+// types whose tags are known are asserted (closed facts decided by go/types).
+func (e *Eng) implFun(it types.Type) T {
+	name := typeName(it)
+	if _, ok := e.ifaceSeen[name]; !ok {
+		e.ifaceSeen[name] = under(it).(*types.Interface)
+		e.newNames = true // one more pass so that earlier values get the fact
+	}
+	f := e.q.DeclareFun("impl|"+name, []string{sTag}, sBool)
+	e.implFacts()
+	return f
+}
+
+func (e *Eng) implFacts() {
+	if e.collect {
+		return
+	}
+	for _, in := range e.sortedIfaces() {
+		it := e.ifaceSeen[in]
+		f := e.q.DeclareFun("impl|"+in, []string{sTag}, sBool)
+		for k, ct := range e.tagTypes {
+			key := in + "<-" + k
+			if e.implDone[key] {
+				continue
+			}
+			e.implDone[key] = true
+			fact := app(f, e.typeTag(ct))
+			if !types.Implements(ct, it) {
+				fact = tNot(fact)
+			}
+			e.q.Assert(fact)
+		}
+	}
+}
